@@ -21,6 +21,7 @@ import (
 	"fmt"
 	"os"
 	"strconv"
+	_ "verifharness/internal/quiet"
 )
 
 func main() {
@@ -35,6 +36,8 @@ func main() {
 		switch os.Args[2] {
 		case "host":
 			genHost(seed, n, os.Args[5])
+		case "vis":
+			genVis(seed, n, os.Args[5])
 		default:
 			fmt.Fprintln(os.Stderr, "unknown stream", os.Args[2])
 			os.Exit(2)
@@ -43,6 +46,8 @@ func main() {
 		switch os.Args[2] {
 		case "host":
 			execHost(os.Args[3], os.Args[4])
+		case "vis", "scope":
+			execWorld(os.Args[3], os.Args[4])
 		default:
 			os.Exit(2)
 		}
@@ -50,6 +55,8 @@ func main() {
 		switch os.Args[2] {
 		case "host":
 			oracleHost(os.Args[3], os.Args[4])
+		case "vis", "scope":
+			oracleWorld(os.Args[2], os.Args[3], os.Args[4])
 		default:
 			os.Exit(2)
 		}
